@@ -11,6 +11,7 @@ import (
 	"io"
 	"net"
 	"os"
+	"runtime/debug"
 	"strings"
 	"sync"
 	"time"
@@ -35,7 +36,9 @@ func init() {
 		ID: "C03",
 		Rule: "case = one proxied session over real sockets: client TCP (optionally TLS-terminated by the tls handler) -> layer4 proxy -> 1-2 harness upstream servers (tcp / unix / tls), " +
 			"payload sizes {0,1,2047..2049,64KiB,1MiB(+4MiB thorough)} per direction with distinct PRF domains and random chunking, a matcher that prefetches 0..4096 bytes first, and a close order " +
-			"(client-first / upstream-first / simultaneous / upstream-close-early / client-abort / upstream-reset). oracle: (a) each upstream received exactly the client's stream, (b) the client received each upstream's " +
+			"(client-first / upstream-first / simultaneous / upstream-close-early / client-abort / upstream-reset / one of two peers resetting while the other waits for end-of-stream); " +
+			"plus dial-failure sessions (2-3 peers, one refusing for ever or until it recovers inside try_duration, PROXY header v0/v1/v2, garbage collector off so that finalizers cannot close a leaked socket): every " +
+			"connection of an abandoned attempt is closed when the handler returns. oracle: (a) each upstream received exactly the client's stream, (b) the client received each upstream's " +
 			"bytes in order, (c) the side that is still open observes EOF while its own direction keeps flowing, (d) the handler returns and every upstream connection is closed, (e) no goroutine left in " +
 			"l4proxy and the fd count returns to the baseline. non-trivial = bytes flowed in both directions or an abrupt close was injected; distinct = hash(all session parameters)",
 		Assumptions: []string{
@@ -48,9 +51,11 @@ func init() {
 				return []fw.ChildSpec{
 					{Name: "relay", Mode: "relay", Shards: 8, Timeout: 40 * time.Minute},
 					{Name: "relay-race", Mode: "relay", Race: true, Shards: 4, Timeout: 40 * time.Minute},
+					{Name: "dialfail", Mode: "dialfail", Shards: 4, Timeout: 40 * time.Minute},
 				}
 			}
-			return []fw.ChildSpec{{Name: "relay", Mode: "relay", Shards: 6, Timeout: 10 * time.Minute}}
+			return []fw.ChildSpec{{Name: "relay", Mode: "relay", Shards: 6, Timeout: 10 * time.Minute},
+				{Name: "dialfail", Mode: "dialfail", Shards: 2, Timeout: 10 * time.Minute}}
 		},
 		Run:    run,
 		Replay: replay,
@@ -71,6 +76,8 @@ type Session struct {
 	Chunk    int    `json:"chunk"`    // write chunk size
 	DelayUs  int    `json:"delay_us"` // between chunks
 	Policy   string `json:"policy"`
+	// ResetPeer is the peer that resets in the peer-reset-mixed order
+	ResetPeer int `json:"reset_peer,omitempty"`
 }
 
 var sizes = []int{0, 1, 100, 2047, 2048, 2049, 5000, 65536, 1 << 20}
@@ -101,6 +108,18 @@ func genSession(c *fw.Ctx, i int) *Session {
 	if s.Order == "client-abort" && s.Prefetch > s.CLen/2 {
 		s.Prefetch = 0 // the client aborts after half of its stream: the matcher must be satisfied by then
 	}
+	if r.Intn(12) == 0 {
+		// one peer of a two-peer upstream resets its connection early, the other one waits for the end of the
+		// client's stream before it answers
+		s.Order, s.Peers, s.UpNet, s.DownTLS, s.TLS12 = "peer-reset-mixed", 2, "tcp", false, false
+		s.ResetPeer = r.Intn(2)
+		if s.CLen < 100 {
+			s.CLen = 65536
+		}
+		if s.Prefetch > s.CLen {
+			s.Prefetch = s.CLen
+		}
+	}
 	if s.DownTLS || s.Order == "upstream-first" {
 		// (in the upstream-first order the client sends nothing until it has seen EOF, so no matcher may wait for its bytes)
 		s.Prefetch = 0
@@ -122,6 +141,11 @@ func run(c *fw.Ctx) {
 	}
 	if err := caddy.Load([]byte(tlsutil.CaddyConfig(cert, nil)), true); err != nil {
 		c.Note("caddy.Load: %v", err)
+		return
+	}
+	if c.Mode == "dialfail" {
+		runDialFailMode(c)
+		_ = caddy.Stop()
 		return
 	}
 	w := &world{cert: cert, dir: c.OutDir}
@@ -221,9 +245,17 @@ func runSession(c *fw.Ctx, w *world, canary *oracle.Canary, s *Session) {
 	for p := 0; p < s.Peers; p++ {
 		U := oracle.Stream(domUp, uint64(fw.Mix(c.Seed, "u", s.Index, p)), s.ULen)
 		us := &upState{U: U}
+		p := p
 		handler := func(uc *drive.UpConn) {
 			defer uc.Conn.Close()
-			switch s.Order {
+			order := s.Order
+			if order == "peer-reset-mixed" {
+				order = "client-first"
+				if p == s.ResetPeer {
+					order = "upstream-reset"
+				}
+			}
+			switch order {
 			case "client-first":
 				uc.ReadAllRecord()                              // EOF first ...
 				_ = writeChunks(uc.Conn, U, s.Chunk, s.DelayUs) // ... then our direction must still flow
@@ -245,6 +277,11 @@ func runSession(c *fw.Ctx, w *world, canary *oracle.Canary, s *Session) {
 				_ = writeChunks(uc.Conn, U, s.Chunk, 0)
 				return // full close while the client may still be sending
 			case "upstream-reset":
+				if s.Order == "peer-reset-mixed" {
+					// not before the relay is running (a reset that races with the proxy's connect makes the dial
+					// itself fail): wait for the first relayed byte
+					uc.ReadOneRecord()
+				}
 				go uc.ReadAllRecord()
 				_ = writeChunks(uc.Conn, U[:len(U)/2], s.Chunk, 0)
 				if tc, ok := uc.Conn.(*net.TCPConn); ok {
@@ -349,7 +386,7 @@ func runSession(c *fw.Ctx, w *world, canary *oracle.Canary, s *Session) {
 		eofBeforeSend = true
 		_ = writeChunks(conn, C, s.Chunk, s.DelayUs)
 		_ = conn.(closeWriter).CloseWrite()
-	case "simultaneous", "upstream-close-early", "upstream-reset":
+	case "simultaneous", "upstream-close-early", "upstream-reset", "peer-reset-mixed":
 		done := make(chan struct{})
 		go func() { readAll(); close(done) }()
 		_ = writeChunks(conn, C, s.Chunk, s.DelayUs)
@@ -431,6 +468,15 @@ func runSession(c *fw.Ctx, w *world, canary *oracle.Canary, s *Session) {
 			report("client-to-upstream not-a-prefix", fmt.Sprintf("upstream peer %d received bytes that are not a prefix of the client's stream: %s", pi, oracle.Diff(recv, C)), nil)
 		}
 	}
+	if s.Order == "peer-reset-mixed" {
+		// the peer that did not reset must still be told that the client's direction is over (it answers only then)
+		other := 1 - s.ResetPeer
+		if conns := ups[other].up.Conns(); len(conns) == 1 {
+			if eof, _, rerr := conns[0].SawEOF(); !eof {
+				report("half-close-not-propagated-to-upstream", fmt.Sprintf("upstream peer %d did not observe end-of-stream after the client half-closed while peer %d had reset its connection (read error %q)", other, s.ResetPeer, rerr), nil)
+			}
+		}
+	}
 	if graceful {
 		if !clientEOF {
 			report("half-close-not-propagated-to-client", "the client did not observe a clean end-of-stream after every upstream had finished sending", nil)
@@ -497,6 +543,17 @@ func replay(c *fw.Ctx, raw json.RawMessage) {
 	}
 	canary := oracle.StartCanary()
 	defer canary.Stop()
+	if w.Session.Peers > 0 && w.Session.Order == "" {
+		var d struct {
+			Session *DialFail `json:"session"`
+		}
+		if json.Unmarshal(raw, &d) == nil && d.Session != nil {
+			debug.SetGCPercent(-1)
+			runDialFail(c, canary, d.Session)
+			_ = caddy.Stop()
+			return
+		}
+	}
 	runSession(c, &world{cert: cert, dir: c.OutDir}, canary, w.Session)
 	_ = caddy.Stop()
 }
